@@ -231,6 +231,57 @@ fn misnumbered_file(n: usize) -> Vec<u8> {
     f
 }
 
+/// Classic-table files with `n` entries in which two NEIGHBOURING entries are "trouble" objects whose
+/// handling must not depend on how the table is split among workers: streams sharing one indirect
+/// /Length object (valid, negative, self-referential, missing, beyond the file), or a stream next to an
+/// object that does not parse. The pair sits at every position, so every split boundary is hit.
+fn split_family() -> Vec<(String, Vec<u8>)> {
+    let mut out = vec![];
+    for n in [16u32, 33] {
+        for kind in 0..7usize {
+            for pos in 1..n - 1 {
+                let len_id = n; // the shared length object is the last entry
+                let mut f = b"%PDF-1.4\n".to_vec();
+                let mut offs: Vec<usize> = vec![0; n as usize + 1];
+                for id in 1..=n {
+                    offs[id as usize] = f.len();
+                    let body: String = if id == len_id {
+                        match kind {
+                            0 | 5 | 6 => "10".into(),
+                            1 => "-1".into(),
+                            2 => format!("{} 0 R", len_id),
+                            3 => "(not a number)".into(),
+                            _ => "4000000".into(),
+                        }
+                    } else if id == pos || id == pos + 1 {
+                        let first = id == pos;
+                        match (kind, first) {
+                            (5, true) => "(unterminated string".into(),
+                            (6, true) => format!("<</Length {} 0 R>>\nstream\n0123456789\nendstream\nendobj\n{} 0 obj\n<</Length 99 0 R>>\nstream\nshadow\nendstream", len_id, id),
+                            _ => format!("<</Length {} 0 R/Which {}>>\nstream\n0123456789\nendstream", len_id, id),
+                        }
+                    } else if id == 1 {
+                        "<</Type/Catalog/Pages 2 0 R>>".into()
+                    } else if id == 2 {
+                        "<</Type/Pages/Kids[]/Count 0>>".into()
+                    } else {
+                        format!("<</N {}>>", id)
+                    };
+                    f.extend_from_slice(format!("{} 0 obj\n{}\nendobj\n", id, body).as_bytes());
+                }
+                let x = f.len();
+                f.extend_from_slice(format!("xref\n0 {}\n0000000000 65535 f \n", n + 1).as_bytes());
+                for id in 1..=n {
+                    f.extend_from_slice(format!("{:010} 00000 n \n", offs[id as usize]).as_bytes());
+                }
+                f.extend_from_slice(format!("trailer\n<</Size {}/Root 1 0 R>>\nstartxref\n{}\n%%EOF", n + 1, x).as_bytes());
+                out.push((format!("n={} kind={} pair at {}", n, kind, pos), f));
+            }
+        }
+    }
+    out
+}
+
 fn schedule_tree_nodes(k: usize) -> u64 {
     // number of ordered prefixes of k distinct blocks: sum_{j=0..k} k!/(k-j)!
     (0..=k).map(|j| factorial(k) / factorial(k - j)).sum()
@@ -244,6 +295,38 @@ fn main() {
     util::init_pool();
     if let Mode::Replay(path) = run.mode.clone() {
         let c = vharness::run::read_replay(&path);
+        if let Some(h) = c.get("hex").and_then(|h| h.as_str()) {
+            // a file given by its bytes: the pools of every size must agree (sequential build: run the
+            // binary built without default features on the same replay file)
+            let bytes = vharness::objjson::unhex(h);
+            let mut seen: BTreeMap<u64, Vec<usize>> = BTreeMap::new();
+            for t in [1usize, 2, 3, 4, 8, 16] {
+                let pool = rayon::ThreadPoolBuilder::new().num_threads(t).build().unwrap();
+                for _ in 0..20 {
+                    seen.entry(pool.install(|| digest_of(&load_with(&bytes, MergeOrder::Sorted)).0)).or_default().push(t);
+                }
+            }
+            println!("observed: {} distinct documents over pools of 1, 2, 3, 4, 8, 16 threads: {:?}", seen.len(), seen.iter().map(|(k, v)| (format!("{:016x}", k), v.iter().collect::<BTreeSet<_>>())).collect::<Vec<_>>());
+            run.finish_replay(seen.len() != 1);
+        }
+        if let Some(h) = c.get("history") {
+            let hostile = hostile_inputs();
+            let fl = files(false);
+            let subjects: Vec<Vec<u8>> = vec![deep_file(120), deep_file(60), build(&fl[fl.len() / 2]), build(&fl[1])];
+            let subj = &subjects[h["subject"].as_u64().unwrap() as usize];
+            let hs = &hostile[h["hostile"].as_u64().unwrap() as usize];
+            let pool1 = rayon::ThreadPoolBuilder::new().num_threads(1).build().unwrap();
+            let single = h["pool"].as_str() == Some("single-thread-pool");
+            let load = |b: &[u8]| if single { pool1.install(|| digest_of(&load_with(b, MergeOrder::Sorted))) } else { digest_of(&load_with(b, MergeOrder::Sorted)) };
+            let first = load(subj);
+            let mut differs = false;
+            for _ in 0..h["repetitions"].as_u64().unwrap() {
+                let _ = load(hs);
+                differs |= load(subj).0 != first.0;
+            }
+            println!("observed: the subject loads {} after the hostile loads", if differs { "DIFFERENTLY" } else { "identically" });
+            run.finish_replay(differs);
+        }
         let d = desc_from(&c["file"]);
         let bytes = build(&d);
         let (outcomes, loads, k, z) = explore_file(&bytes);
@@ -257,18 +340,23 @@ fn main() {
         let digests: Vec<String> = fl.iter().map(|d| format!("{:016x}", digest_of(&util::load(&build(d))).0)).collect();
         run.eval(fl.len() as u64);
         run.set("digests", json!(digests));
+        let sd: Vec<String> = split_family().iter().map(|(_, b)| format!("{:016x}", digest_of(&util::load(b)).0)).collect();
+        run.eval(sd.len() as u64);
+        run.set("split_digests", json!(sd));
         run.finish_child();
     }
     run.rule(
         "files from the reference writer with k object-stream containers (k<=4 quick, <=6 thorough), every assignment of copies of 3 object \
          numbers to containers (all 7^k mask sequences for small k, {1,3,7}^k for large k), with and without cross-reference entries for the \
          duplicated number, with deferred-length and empty streams; for every file ALL k! x z! orders of the merge blocks / zero-length list are \
-         executed through hook H1 on the real Reader; non-trivial = file with a number stored in >= 2 containers; files distinct by construction",
+         executed through hook H1 on the real Reader; plus a family of classic-table files (16 and 33 entries x 7 kinds of trouble pair x every position) loaded on pools of 1, 2, 3, 4, 8, 16 threads and by the sequential build, which must all agree; non-trivial = file with a number stored in >= 2 containers or a split-family file; files distinct by construction",
     );
     run.assume("the two mutex-protected appends are the only schedule-visible actions of the parallel phase (DESIGN §3); rayon's collect() is order-preserving");
+    let mut seq_split: Vec<String> = vec![];
     let seq_digests: Vec<String> = if let Ok(seq) = std::env::var("VERIF_SEQ_BIN") {
         let tier = if run.thorough { "thorough" } else { "quick" };
         let s = run.run_child(&seq, &["--part", "seq", "--tier", tier], "sequential_reader_build");
+        seq_split = s["extras"]["split_digests"].as_array().map(|a| a.iter().map(|x| x.as_str().unwrap().to_string()).collect()).unwrap_or_default();
         s["extras"]["digests"].as_array().map(|a| a.iter().map(|x| x.as_str().unwrap().to_string()).collect()).unwrap_or_default()
     } else {
         run.assume("VERIF_SEQ_BIN not set: comparison with the sequential build skipped in this invocation");
@@ -368,6 +456,42 @@ fn main() {
                 );
             }
         }
+    }
+    // split independence: the result must not depend on how rayon divides the cross-reference table among
+    // workers. Pools of different sizes split the table differently (deterministically), and the sequential
+    // build does not split at all: all must agree on every file of the family.
+    {
+        let fam = split_family();
+        let pools: Vec<(usize, rayon::ThreadPool)> = [1usize, 2, 3, 4, 8, 16].iter().map(|t| (*t, rayon::ThreadPoolBuilder::new().num_threads(*t).build().unwrap())).collect();
+        let mut loads = 0u64;
+        for (i, (label, bytes)) in fam.iter().enumerate() {
+            let mut seen: BTreeMap<u64, Vec<String>> = BTreeMap::new();
+            for (t, pool) in &pools {
+                let dg = pool.install(|| digest_of(&load_with(bytes, MergeOrder::Sorted)).0);
+                seen.entry(dg).or_default().push(format!("pool({})", t));
+                loads += 1;
+            }
+            let dg = digest_of(&load_with(bytes, MergeOrder::Sorted)).0;
+            seen.entry(dg).or_default().push("global pool".into());
+            loads += 1;
+            if let Some(sd) = seq_split.get(i) {
+                let v = u64::from_str_radix(sd, 16).unwrap_or(0);
+                seen.entry(v).or_default().push("sequential build".into());
+            }
+            run.eval(pools.len() as u64 + 1);
+            run.nontrivial(1);
+            if seen.len() != 1 {
+                run.fail(
+                    None,
+                    json!({"split_family": label, "hex": vharness::objjson::hex(bytes)}),
+                    &format!("{} distinct documents: {:?}", seen.len(), seen.values().collect::<Vec<_>>()),
+                    "the same document whatever the pool size, equal to the sequential build's",
+                );
+            }
+        }
+        run.set("split_family_files", json!(fam.len()));
+        run.set("split_family_loads", json!(loads));
+        run.set("split_family_compared_with_sequential_build", json!(seq_split.len()));
     }
     run.set("supplementary_free_running_loads_SAMPLING", json!(free_loads));
     // history independence: loading the same bytes gives the same document whatever was loaded
